@@ -28,7 +28,8 @@ type yProg struct {
 	Dedup     string // cycle: "" or once / when_changed on a cycle member
 	EdgeKinds []string
 	Width     int
-	MaxCalls  int // cycle: the value the run uses for the MaximumTaskCall constant (a tuning knob of the system)
+	MaxCalls  int  // cycle: the value the run uses for the MaximumTaskCall constant (a tuning knob of the system)
+	DeferLeg  bool // cycle: some leg is a deferred task call (whose error is ignored)
 }
 
 func genY(ch *vs.Choices, tier string) *yProg {
@@ -90,9 +91,14 @@ func genY(ch *vs.Choices, tier string) *yProg {
 			if p.Dedup != "" && i == 0 {
 				fmt.Fprintf(&sb, "    run: %s\n", p.Dedup)
 			}
-			via := []string{"dep", "cmd"}[ch.Draw(2)]
+			via := []string{"dep", "cmd", "dep", "cmd", "defer"}[ch.Draw(5)]
 			p.EdgeKinds[i] += "/" + via
-			if via == "dep" {
+			if via == "defer" {
+				// a deferred task call: its error is ignored by design, so such a cycle may end without an error --
+				// but it must end
+				p.DeferLeg = true
+				fmt.Fprintf(&sb, "    cmds:\n      - echo \"S|%s\"\n      - defer: {task: %s}\n", names[i], yq(refs[i]))
+			} else if via == "dep" {
 				fmt.Fprintf(&sb, "    deps: [%s]\n    cmds:\n      - echo \"S|%s\"\n", yq(refs[i]), names[i])
 			} else {
 				fmt.Fprintf(&sb, "    cmds:\n      - echo \"S|%s\"\n      - task: %s\n", names[i], yq(refs[i]))
@@ -235,7 +241,9 @@ func runY(t *testing.T, ch *vs.Choices, prop, tier string, render bool) *vs.RunO
 		case vs.StepCap:
 			out.Violate("C07", "cycle_not_cut_off|"+tag+"|"+namingClass(p.EdgeKinds), "a cyclic Taskfile (%v) was still recursing after %d scheduler steps", p.EdgeKinds, out.Steps)
 		default:
-			if runErr == nil {
+			if p.DeferLeg {
+				out.Hit("cycle_through_deferred_call_ended")
+			} else if runErr == nil {
 				out.Violate("C07", "cycle_no_error|"+tag, "a cyclic Taskfile (%v) ended without an error", p.EdgeKinds)
 			} else if code != 204 && code != 201 {
 				out.Violate("C07", "cycle_wrong_status|"+tag, "a cyclic Taskfile (%v) ended with exit %d (%s: %v), want 204 or 201", p.EdgeKinds, code, class, runErr)
